@@ -170,7 +170,9 @@ impl<'a> TreeGen<'a> {
         anc.push(parent);
         let reuse: Vec<String> = self.files.iter().enumerate().skip(1).filter(|(j, f)| f.2.is_some() && !anc.contains(j) && !self.has_children[*j]).map(|(_, f)| f.1.clone()).collect();
         let dup = !reuse.is_empty() && self.r.chance(1, 5);
-        let name = if dup { reuse[self.r.usize(reuse.len())].clone() } else { format!("f{}.{}", i, ext) };
+        // one name in fourteen holds a literal backslash - an ordinary character on this system,
+        // not a separator: `g\f3.inc` is a file, not `f3.inc` in a directory `g`
+        let name = if dup { reuse[self.r.usize(reuse.len())].clone() } else if self.r.chance(1, 14) { format!("g\\f{}.{}", i, ext) } else { format!("f{}.{}", i, ext) };
         self.files.push((String::new(), name, Some(parent), vec![]));
         self.has_children.push(false);
         self.leaf_only.push(dup);
@@ -512,7 +514,7 @@ pub fn scenario_with(seed: u64, g: u64, layout: &Layout) -> Scenario {
     };
     // now and then (or on request) a deep chain: every file holds a piece of the program and
     // includes the next one, so d files are open at the deepest point
-    let chain = layout.chain_depth.or_else(|| if tg.r.chance(1, 30) { Some(tg.r.range(9, 24) as usize) } else { None });
+    let chain = layout.chain_depth.or_else(|| if tg.r.chance(1, 30) { Some(if tg.r.chance(1, 6) { tg.r.range(49, 64) } else { tg.r.range(9, 24) } as usize) } else { None });
     let nodes = match chain {
         None => tg.process(prog.nodes.clone(), 0, 0),
         Some(d) => {
@@ -1560,6 +1562,8 @@ pub fn worker(cfg: &WorkerCfg, emit: &mut dyn FnMut(Violation)) -> Stats {
         cx.stats.probe("included_file_without_final_newline", opened.iter().any(|e| sc.files.get(&e.1).map(|t| !t.is_empty() && !t.ends_with('\n')).unwrap_or(false)));
         cx.stats.probe("empty_included_file", opened.iter().any(|e| sc.files.get(&e.1).map(|t| t.trim().is_empty()).unwrap_or(false)));
         cx.stats.probe("include_found_through_a_search_directory_spelled_via_a_directory_alias_and_dotdot", !sc.dirlinks.is_empty() && profile.iter().any(|e| e.call == Call::Open && e.ret >= 0 && e.path.contains("/L0/../")));
+        cx.stats.probe("included_file_whose_name_holds_a_backslash_opened", opened.iter().any(|e| basename(&e.1).contains('\\')));
+        cx.stats.probe("chain_of_49_or_more_files_opened", opened.len() >= 49);
         cx.stats.probe("included_file_is_a_symbolic_link_and_includes_a_sibling", opened.iter().any(|e| sc.symlinks.contains_key(&e.1) && sc.files.get(&e.1).map(|t| t.lines().any(|l| parse_include(l).is_some())).unwrap_or(false)));
         cx.stats.probe("cwd_deep_below_the_root", sc.cwd.contains('/'));
         cx.stats.probe("cwd_is_the_main_files_directory", incmodel::dirname(&sc.main_file) == sc.cwd);
